@@ -120,8 +120,12 @@ def _cphase_symbols_to_sqrt_iswap(
     # For sign = 1: theta. For sign = -1, 2pi-theta
     theta_prime = (sympy.pi - sign * sympy.pi) + sign * theta
 
-    phi = sympy.asin(np.sqrt(2) * sympy.sin(theta_prime / 4))
-    xi = sympy.atan(sympy.tan(phi) / np.sqrt(2))
+    # (theta_prime is in [0, pi]: the argument is at most 1, up to rounding - at theta_prime = pi
+    # it evaluates to 1.0000000000000002, whose arcsine is complex)
+    sin_phi = sympy.Min(1, np.sqrt(2) * sympy.sin(theta_prime / 4))
+    phi = sympy.asin(sin_phi)
+    # xi = atan(tan(phi) / sqrt(2)), written so that phi = pi / 2 (theta_prime = pi) is not a pole
+    xi = sympy.atan2(sin_phi, np.sqrt(2) * sympy.sqrt(1 - sin_phi**2))
 
     yield ops.rz(sign * 0.5 * theta_prime).on(a)
     yield ops.rz(sign * 0.5 * theta_prime).on(b)
